@@ -189,6 +189,20 @@ def check_source(ctx):
             ctx.check(not e.has_call("SystemTime::now") and not e.has_call("FeoxStore::get_timestamp_pub") or e.has_call("VersionClock::next") or e.has_call("FeoxStore::get_timestamp"),
                       inst, "FORBID", b.path, "no record is stamped with the raw wall clock", b.where(c.id))
     ctx.check(n >= 14, inst, "anchor", "-", "record constructor sites in the store (>= 14, found %d)" % n, None)
+    # ... and the constructors put exactly that parameter into the record (a deferred TTL generation must not inherit its
+    # predecessor's version: it would tie with it in memory, on disk and after recovery)
+    n_lit = 0
+    for b in ctx.prog.product_bodies():
+        if not b.file.endswith("core/record.rs"):
+            continue
+        for nd in b.nodes:
+            if nd.kind == "assign" and nd.ev.get("rv") == "agg" and (nd.ev.get("adt") or "").endswith("core::record::Record"):
+                n_lit += 1
+                f = dict(zip(nd.ev["fields"], [A.tracer(b).operand(o) for o in nd.ev["ops"]]))
+                ts = f.get("timestamp")
+                ctx.check(ts is not None and ts.k == "arg", inst, "PIN", b.path, "the record's timestamp is the constructor's timestamp parameter", b.where(nd.id),
+                          {"timestamp": ts.show()[:60] if ts is not None else None})
+    ctx.check(n_lit == 3, inst, "anchor", "-", "Record literals in record.rs (expected 3, found %d)" % n_lit, None)
     # atomic ops / insert_if_absent take their automatic timestamps from get_timestamp
     for fn in ("FeoxStore::insert_if_absent", "FeoxStore::atomic_increment_with_timestamp_and_ttl"):
         b = ctx.fn(fn, inst)
